@@ -21,6 +21,7 @@ META = {
     "assumptions": [],
     "not_decided": ["equality of results for all spellings on all documents"],
 }
+META["explanation"] += ' R4 number spellings: every operand shape reaches the one value-equality helper whose numeric branch compares by value (shared with C04-R3/R4). R5 the descendant arm is the generic expansion (shared with C01-R2).'
 
 M = "crate::parser::model::"
 QT = "crate::query::queryable::Queryable"
